@@ -166,6 +166,9 @@ std::optional<Payload> decode_payload_v1(MessageType type,
             if (remaining < needed) {
                 return std::nullopt;
             }
+            if (*data > 1) {
+                return std::nullopt;  // booleans are exactly 0 or 1 on the wire
+            }
             AcknowledgePayload payload{};
             payload.accepted = *(data) != 0;
             payload.chunk_id = parse_chunk_id(data + 1);
@@ -187,6 +190,9 @@ std::optional<Payload> decode_payload_v1(MessageType type,
             const auto needed = 1 + 1 + 4;
             if (remaining < needed) {
                 return std::nullopt;
+            }
+            if (*data > 1) {
+                return std::nullopt;  // booleans are exactly 0 or 1 on the wire
             }
             HandshakeAckPayload payload{};
             payload.accepted = *(data) != 0;
